@@ -25,6 +25,12 @@ func VH_C13_EngineSteps() {
 	verifrt.Assert(err == nil, "startGame succeeds")
 	g := te.game.(*game)
 	g.rg.ModelSetStepped(true)
+	// ReleaseTable / CloseTable may arrive while the hand runs: the hand goes on (release only
+	// sets a flag), and a failure of one of its engine-side steps must still be reported
+	te.isReleased = verifrt.Bool("releasedMidHand")
+	if verifrt.Bool("closedMidHand") {
+		te.table.State.Status = TableStateStatus_TableClosed
+	}
 	var gs *pokerface.GameState
 	if which == 3 {
 		gs = vhArbitraryGS("rq", m)
